@@ -58,6 +58,8 @@ func treeContent(class, name string) []byte {
 		return detBytes("multi-"+name, 600*1024+17)
 	case "dirbytes": // exactly the dag-pb block of an empty UnixFS directory: same multihash as that node, other codec
 		return dagpbNode(nil, ufsData(ufsDirectory, nil, -1))
+	case "zerotail": // a multiple of 32 KiB whose last 192 KiB are zeros (a sparse-copy would have to make the hole real)
+		return append(detBytes("zt-"+name, 64*1024), make([]byte, 192*1024)...)
 	case "repeatchunk":
 		return make([]byte, 600*1024) // identical chunks
 	}
@@ -141,8 +143,12 @@ func materialise(dir string, es []trEntry) error {
 			if err := os.Mkdir(p, 0o755); err != nil {
 				return err
 			}
-			for i := 0; i < manyDirEntries; i++ {
-				q := filepath.Join(p, fmt.Sprintf("%04d-%s", i, strings.Repeat("n", 190)))
+			n, nameLen := manyDirEntries, 190
+			if e.N == "wide" { // 5000 x (15 + 36) = 255 000 < 262 144: stays a plain directory, its block is ~300 KB
+				n, nameLen = 5000, 10
+			}
+			for i := 0; i < n; i++ {
+				q := filepath.Join(p, fmt.Sprintf("%04d-%s", i, strings.Repeat("n", nameLen)))
 				var err error
 				switch {
 				case i%97 == 5:
@@ -237,7 +243,13 @@ func runTreeCase(carBin string, c *treeCase, base string) (string, string) {
 	for _, e := range c.Tree {
 		hasMany = hasMany || e.K == "manydir"
 	}
-	if hasMany {
+	hasWide := false
+	for _, e := range c.Tree {
+		if e.K == "manydir" && e.N == "wide" {
+			hasWide = true
+		}
+	}
+	if hasMany && !hasWide {
 		sharded := false
 		for _, sec := range v1.Secs {
 			if sec.Cid.Prefix().Codec == cid.DagProtobuf && unixfsType(sec.Data) == 5 {
